@@ -430,6 +430,76 @@ pub fn generate(seed: u64, tier: &str, sink: &mut Sink) {
         });
     }
     extreme_timeouts(sink);
+    late_acceptors(sink);
+}
+
+/// An address that accepts LATE — its first SYN is dropped (full accept queue), the queue is opened 400 ms into
+/// the race, the retransmitted SYN (after about 1 s) is answered — next to a last address that never answers:
+/// the connection is there as soon as the late address accepts, not when the attempt to the last address gives up
+/// (seed C17-seed13: the last attempt made on the thread that also receives the results).
+fn late_acceptors(sink: &mut Sink) {
+    for (name, late_v6, n_black) in [("late-v6-then-blackhole", true, 1usize), ("late-v4-then-two-blackholes", false, 2)] {
+        let mut o: Result<(), (String, String)> = Ok(());
+        let mut valid = false;
+        for _attempt in 0..2 {
+            let late = match blackhole(late_v6) {
+                Some(b) => b,
+                None => continue,
+            };
+            let holes: Vec<Blackhole> = (0..n_black).filter_map(|k| blackhole(!late_v6 ^ (k % 2 == 1))).collect();
+            if holes.len() != n_black {
+                continue;
+            }
+            let late_addr = late.addr;
+            let Blackhole { _l: l, _held: held, .. } = late;
+            std::thread::spawn(move || {
+                std::thread::sleep(Duration::from_millis(400));
+                drop(held);
+                l.set_nonblocking(true).ok();
+                let end = Instant::now() + Duration::from_secs(6);
+                while Instant::now() < end {
+                    match l.accept() {
+                        Ok((mut s, _)) => {
+                            s.set_nonblocking(false).ok();
+                            s.set_read_timeout(Some(Duration::from_millis(300))).ok();
+                            let mut buf = [0u8; 2048];
+                            if let Ok(k) = s.read(&mut buf) {
+                                if k > 0 {
+                                    let _ = s.write_all(b"HTTP/1.1 200 OK\r\nX-Listener: late\r\nContent-Length: 0\r\n\r\n");
+                                }
+                            }
+                        }
+                        Err(_) => std::thread::sleep(Duration::from_millis(5)),
+                    }
+                }
+            });
+            let host = format!("{}.test", name);
+            let mut addrs = vec![late_addr];
+            addrs.extend(holes.iter().map(|h| h.addr));
+            attohttpc::verif_hooks::set_resolver_override(&host, addrs);
+            let t0 = Instant::now();
+            let res = attohttpc::get(format!("http://{}:1/", host)).connect_timeout(Duration::from_millis(3500)).read_timeout(Duration::from_secs(2)).send();
+            let el = t0.elapsed().as_millis() as u64;
+            attohttpc::verif_hooks::clear_resolver_overrides();
+            if !holes.iter().all(|h| h.still_black()) {
+                continue;
+            }
+            valid = true;
+            o = match res {
+                Ok(r) if r.headers().get("x-listener").map(|v| v.as_bytes()) == Some(b"late") && el < 2300 => Ok(()),
+                Ok(r) if r.headers().get("x-listener").map(|v| v.as_bytes()) == Some(b"late") => Err(("late-accept-noticed-late".to_string(), format!("{}: the address that accepts about 1 s into the race (SYN retransmission) was connected after {} ms — when the attempt to the last, unresponsive address gave up (connect timeout 3500 ms)", name, el))),
+                Ok(r) => Err(("late-accept-wrong-peer".to_string(), format!("{}: status {}", name, r.status().as_u16()))),
+                Err(e) => Err(("missed-reachable-address".to_string(), format!("{}: {:?} after {} ms", name, e.kind(), el))),
+            };
+            break;
+        }
+        let mut tags = vec!["kind=late-acceptor".to_string(), format!("shape={}", name)];
+        if !valid {
+            tags.push("trivial".into());
+            tags.push("env-invalid".into());
+        }
+        sink.push(Case { tags, op: format!("nop {}", name), impl_line: "nop".into(), oracle: o });
+    }
 }
 
 /// The connect timeout is a plain `Duration`: "no connect timeout, let the overall timeout govern" is said with
